@@ -31,7 +31,7 @@ MANIFEST = {
     "technique": "Lean 4 theorems over executable agent models; models tied by regenerated tables and a differential rig",
     "design_ref": "5/C19",
 }
-MODULES = ["PrimaiteModel.Props.C19", "PrimaiteModel.Props.C19Sched", "PrimaiteModel.Props.C19Run"]
+MODULES = ["PrimaiteModel.Props.C19", "PrimaiteModel.Props.C19Sched", "PrimaiteModel.Props.C19Run", "PrimaiteModel.Props.C19Params"]
 EXE = "drv_c19"
 KINDS = ["periodic", "prob", "tap1", "tap3", "rand"]
 
